@@ -136,7 +136,7 @@ class MarkovNetwork(UndirectedGraph):
             ):
                 raise ValueError("Factors defined on variable not in the model", factor)
 
-            self.factors.append(factor)
+        self.factors.extend(factors)
 
     def get_factors(self, node=None):
         """
